@@ -106,9 +106,12 @@ def install():
 
 
 def load_module(src, path, name):
-    with open(path, 'w') as f:
+    os.makedirs(os.path.dirname(path), exist_ok=True)
+    with open(path, 'w', encoding='utf-8') as f:
         f.write(src)
-    spec = importlib.util.spec_from_file_location(name, path)
+    # an explicit source loader: the file may have any name and extension
+    import importlib.machinery
+    spec = importlib.util.spec_from_file_location(name, path, loader=importlib.machinery.SourceFileLoader(name, path))
     mod = importlib.util.module_from_spec(spec)
     sys.modules[name] = mod
     spec.loader.exec_module(mod)
@@ -119,9 +122,13 @@ def unload_module(name):
     sys.modules.pop(name, None)
 
 
-def user_frames(tb, path):
-    """(function, line) of the frames of `path` in a traceback, outermost first."""
-    return [(f.name, f.lineno) for f in traceback.extract_tb(tb) if f.filename == path]
+def user_frames(tb, paths):
+    """(function, line) of the frames lying in the user files `paths` in a traceback, outermost first."""
+    return [(f.name, f.lineno) for f in traceback.extract_tb(tb) if f.filename in paths]
+
+
+def user_frame_files(tb, paths):
+    return [f.filename for f in traceback.extract_tb(tb) if f.filename in paths]
 
 
 def walk_pairs(nodes, code, filepath):
@@ -395,23 +402,50 @@ def deindent_message(s):
 # ------------------------------------------------------------------------------------------------
 # one case
 # ------------------------------------------------------------------------------------------------
-def run_case(built, path, modname, convert_kwargs=None):
+def _rel(p, entry_path):
+    base = os.path.dirname(entry_path)
+    while base and os.path.basename(base)[:5] != 'case_':
+        nb = os.path.dirname(base)
+        if nb == base:
+            return p
+        base = nb
+    return os.path.relpath(p, base)
+
+
+def case_paths(built, workdir, tag):
+    """Where the case's module(s) go: a directory of their own (file names repeat across cases), the file names the
+    case asks for (default c12case_<tag>.py)."""
+    base = os.path.join(workdir, 'case_%s' % tag)
+    entry = os.path.join(base, built.get('entry_file') or ('c12case_%s.py' % tag))
+    helper = os.path.join(base, built['helper_file']) if built.get('helper_src') else None
+    return entry, helper
+
+
+def run_case(built, path, modname, convert_kwargs=None, helper_path=None):
     """Run original and converted entry point; raw observations (not JSON-able)."""
     import malt
     install()
     REC.conversions.clear()
     REC.stack_calls.clear()
     REC.events.clear()
+    paths = {path}
+    if helper_path:
+        # the unconverted tail of the chain lives in a second user module; the entry module reaches it through a global
+        hmod = load_module(built['helper_src'], helper_path, modname.replace('c12case', 'c12help'))
+        paths.add(helper_path)
     mod = load_module(built['src'], path, modname)
+    if helper_path:
+        for nm in built.get('helper_names') or []:
+            setattr(mod, nm, getattr(hmod, nm))
     f = getattr(mod, built['entry'])
     args = built['args']
-    obs = {'path': path}
+    obs = {'path': path, 'paths': paths}
     try:
         f(*args)
         obs['orig'] = None
     except Exception as e:          # noqa
         obs['orig'] = {'type': type(e), 'type_name': type(e).__name__, 'str': str(e),
-                       'frames': user_frames(e.__traceback__, path)}
+                       'frames': user_frames(e.__traceback__, paths), 'frame_files': user_frame_files(e.__traceback__, paths)}
     REC.conversions.clear()
     REC.stack_calls.clear()
     REC.events.clear()
@@ -463,15 +497,19 @@ def py_classes(levels, all_gen=()):
     return [reentered, hit, lam, unwrapped]
 
 
-def analyse_case(built, path, modname, want_corr=True):
+def analyse_case(built, workdir, tag, want_corr=True):
     """Everything about one case as plain data."""
     from malt.pyct import anno
     out = {'status': 'ok', 'fails': [], 'corr': [], 'stats': {}, 'class_req': None}
-    obs = run_case(built, path, modname)
+    modname = 'c12case_%s' % tag
+    path, helper_path = case_paths(built, workdir, tag)
+    obs = run_case(built, path, modname, helper_path=helper_path)
+    out['path'] = path
     try:
         return _analyse(built, path, obs, out, want_corr)
     finally:
         unload_module(modname)
+        unload_module(modname.replace('c12case', 'c12help'))
 
 
 def _analyse(built, path, obs, out, want_corr):
@@ -566,8 +604,12 @@ def _analyse(built, path, obs, out, want_corr):
     if want_msg not in deindent_message(c['str']) or c['cause_message'] != want_msg:
         out['fails'].append({'what': 'message not carried: %r not in %r' % (want_msg, c['str'][-300:]), 'cls': None, 'oracle': 'message'})
     # ---------------- O4: stack ----------------
-    T = [(fr[2], fr[1], bool(fr[4])) for fr in c['stack'] if fr[0] == path]
+    user_paths = obs['paths']
+    T = [(fr[2], fr[1], bool(fr[4])) for fr in c['stack'] if fr[0] in user_paths]
+    T_files = [fr[0] for fr in c['stack'] if fr[0] in user_paths]
     probs = []
+    if T and T_files[0] != o['frame_files'][-1]:
+        probs.append('innermost user frame lies in %s, the failing statement in %s' % (_rel(T_files[0], path), _rel(o['frame_files'][-1], path)))
     if not T or (T[0][0], T[0][1]) != U0[-1]:
         probs.append('innermost user frame %s, original traceback ends at %s' % (T[:1], U0[-1]))
     if not is_subsequence([(a, b) for a, b, _ in T], list(reversed(U0))):
@@ -603,7 +645,7 @@ def _analyse(built, path, obs, out, want_corr):
     out['py_classes'] = pyc
     # the hypotheses and the conclusion of C12_stack_partial on this recorded run (evaluated by the Lean driver)
     conv_units = [u for u in units if u['conv']]
-    if levels and len(conv_units) == len(levels) and all(l['gen_file'] for l in levels) and not built.get('wraps') and not wrapped_path:
+    if levels and len(conv_units) == len(levels) and all(l['gen_file'] for l in levels) and not built.get('wraps') and not wrapped_path and not built.get('helper_src'):
         lv = []
         for l, u in zip(reversed(levels), conv_units):
             fn, line = u['frames'][-1]
